@@ -58,6 +58,21 @@ inline Plan gen_plan(Rng& r, int cls, long case_index) {
             p.ops[t].push_back(o);
         }
     }
+    if (cls == 'L' && r.chance(1, 6)) {
+        // negative-size shape: some threads sit in blocking pops on an empty bounded queue (more blocked pops than items) while the
+        // others issue try_push / try_emplace (which must succeed unless the queue is really full), a few try_pops and pushes
+        p.bounded = true; p.cap = r.pick(std::vector<long>{ 1, 1, 2, 3, -1 }); p.prefill = 0;
+        int poppers = 1 + (int)r.below((uint64_t)p.nthreads - 1);
+        for (int t = 0; t < p.nthreads; t++) {
+            p.ops[t].clear();
+            if (t < poppers) { int k = 2 + (int)r.below(4); for (int i = 0; i < k; i++) p.ops[t].push_back(PlanOp{ (uint8_t)K_POP, 0, (uint16_t)(r.chance(1, 3) ? r.below(300) : 0) }); }
+            else {
+                int k = 3 + (int)r.below(8);
+                for (int i = 0; i < k; i++) { unsigned x = (unsigned)r.below(100); PlanOp o; o.val = t * 1000 + i; o.kind = (uint8_t)(x < 70 ? K_TRY_PUSH : x < 85 ? K_TRY_POP : K_PUSH); o.delay = (uint16_t)(i == 0 ? 500 + r.below(3000) : (r.chance(1, 3) ? r.below(600) : 0)); p.ops[t].push_back(o); }
+            }
+        }
+    }
+    p.max_help = p.total() + 8;
     int npush = 0; for (int t = 0; t < p.nthreads; t++) for (auto& o : p.ops[t]) if (is_push(o.kind)) npush++;
     if (cls == 'U') {           // fault enumeration: the k-th in-queue construction throws, k sweeps 0..npush
         p.arm_ctor[0] = case_index % (npush + 1);
@@ -74,6 +89,7 @@ inline Plan gen_plan(Rng& r, int cls, long case_index) {
         for (int i = 0; i < pops; i++) p.ops[2].push_back(PlanOp{ (uint8_t)K_TRY_POP, 0, (uint16_t)r.below(300) });
         p.focus_page_switch = true;
         p.arm_alloc = 7 + (long)r.below(4);
+        p.max_help = p.total() + 8;
         return p;
     }
     if (cls == 'G') {           // the k-th page allocation after the pre-advance fails
@@ -123,6 +139,7 @@ inline bool run_case(Engine& E, const Plan& p, Rng& r, LinStats& ls) {
     int n = (int)out.ops.size();
     int ov = overlapping_pairs(out.ops);
     R.stat("ops", n); R.stat("overlapping_pairs", ov); R.stat("helper_ops", out.helper_ops);
+    R.stat("try_push_while_pop_blocked", out.try_push_while_pop_blocked); R.stat("try_push_full_while_pop_blocked", out.try_push_full_while_pop_blocked);
     R.stat("pops", as.pops); R.stat("try_pop_empty", as.empties); R.stat("try_push_full", as.fulls); R.stat("push_exceptions", as.exceptions);
     bool nontrivial = ov > 0;
     if (nontrivial) { R.nontrivial++; R.signature(mix(history_signature(out.ops), (uint64_t)p.cls)); ls.overlapping++; }
@@ -136,6 +153,7 @@ inline bool run_case(Engine& E, const Plan& p, Rng& r, LinStats& ls) {
             else out.fail("not-linearizable", "no linearization of the recorded history against the sequential " + std::string(cap >= 0 ? "bounded " : "") + "FIFO model");
         } else { ls.too_long++; R.stat("history_too_long_for_wgl"); }
     }
+    if (out.reported) return false;
     if (!out.fail_key.empty()) {
         Json j; j.obj(); j.key("plan").raw(plan_json(p)); j.key("initial").arr(); for (long v : E.out_initial) j.val(v); j.end_arr();
         j.key("history[thread,op,arg,result,call,ret]").raw(history_json(out.ops, kind_names)); j.end_obj();
